@@ -1,0 +1,8 @@
+//go:build verif
+
+// Contracts for package intgeom, read by the verification-condition generator in /verif (gvc).
+// This file contains comments only; it is compiled only with the build tag "verif" and adds no code.
+package intgeom
+
+//@ func PrintWithDecimals
+//@   trusted "number formatting with fmt.Sprintf(%011d) and string slicing; no effect; assumed not to panic"
